@@ -227,6 +227,12 @@ func init() {
 		mutant{Name: "anonymous-eval-resets-the-source-name", Prop: "C11", File: "interp/program.go", Old: "\tif name != \"\" {\n\t\tinterp.name = name\n\t}\n\tif interp.name == \"\" {\n\t\tinterp.name = DefaultSourceName\n\t}\n", New: "\tif name == \"\" {\n\t\tname = DefaultSourceName\n\t}\n\tinterp.name = name\n", Rule: "R11.8", Key: "Interpreter.compileSrc/source-name-store#1/guarded"},
 		mutant{Name: "multi-value-define-symbols-flagged-global", Prop: "C11", File: "interp/cfg.go", Old: "\t\t\tsc.sym[id] = &symbol{index: index, kind: varSym, typ: t}\n", New: "\t\t\tsc.sym[id] = &symbol{index: index, kind: varSym, global: sc.global, typ: t, node: n}\n", Rule: "R11.9", Key: "compDefineX/var-symbols-not-global"},
 		mutant{Name: "gta-flags-multi-value-variables-global", Prop: "C11", File: "interp/gta.go", Old: "\t\t\t\t\tsym.node = n\n", New: "\t\t\t\t\tsym.global = true\n\t\t\t\t\tsym.node = n\n", Rule: "R11.9", Key: "compDefineX/var-symbols-not-global"},
+		mutant{Name: "remainder-accepted-on-floats", Prop: "C12", File: "interp/typecheck.go", Old: "\taRem: isInt,\n", New: "\taRem: isNumber,\n", Rule: "R12.6", Key: "binaryOpPredicates/aRem"},
+		mutant{Name: "subtraction-accepted-on-strings", Prop: "C12", File: "interp/typecheck.go", Old: "\taSub: isNumber,\n", New: "\taSub: func(typ reflect.Type) bool { return isNumber(typ) || isString(typ) },\n", Rule: "R12.6", Key: "binaryOpPredicates/aSub"},
+		mutant{Name: "isInt-forgets-uint8", Prop: "C12", File: "interp/type.go", Old: "\tcase reflect.Int, reflect.Int8, reflect.Int16, reflect.Int32, reflect.Int64, reflect.Uint, reflect.Uint8, reflect.Uint16, reflect.Uint32, reflect.Uint64, reflect.Uintptr:\n\t\treturn true\n\t}\n\treturn false\n}\n\nfunc isUint(", New: "\tcase reflect.Int, reflect.Int8, reflect.Int16, reflect.Int32, reflect.Int64, reflect.Uint, reflect.Uint16, reflect.Uint32, reflect.Uint64, reflect.Uintptr:\n\t\treturn true\n\t}\n\treturn false\n}\n\nfunc isUint(", Rule: "R12.6", Key: "predicate/isInt"},
+		mutant{Name: "benign-add-predicate-reordered", Prop: "C12", File: "interp/typecheck.go", Old: "\taAdd: func(typ reflect.Type) bool { return isNumber(typ) || isString(typ) },\n", New: "\taAdd: func(typ reflect.Type) bool { return isString(typ) || isNumber(typ) },\n", Benign: true},
+		mutant{Name: "ordering-accepted-on-complex", Prop: "C12", File: "interp/type.go", Old: "\treturn isInt(typ) || isFloat(typ) || isString(typ)\n", New: "\treturn isNumber(typ) || isString(typ)\n", Rule: "R12.6", Key: "predicate/itype.ordered"},
+		mutant{Name: "ordering-needs-one-ordered-operand-only", Prop: "C12", File: "interp/typecheck.go", Old: "\t\tok = t0.ordered() && t1.ordered()\n", New: "\t\tok = t0.ordered() || t1.ordered()\n", Rule: "R12.6", Key: "comparison/ordering-operators-need-ordered-operands"},
 		// ---- C18
 		mutant{Name: "var-bound-by-value-in-generator", Prop: "C18", File: "extract/extract.go", Old: "\t\t\tval[name] = Val{pname, true}", New: "\t\t\tval[name] = Val{pname, false}", Rule: "R18.2", Key: "genContent/addr-only-for-vars"},
 		mutant{Name: "template-forwards-wrong-field", Prop: "C18", File: "extract/extract.go", Old: "\t\t\t{{- $m.Ret}} W.W{{$m.Name}}{{$m.Arg -}}", New: "\t\t\t{{- $m.Ret}} W.{{$m.Name}}{{$m.Arg -}}", Rule: "R18.3", Key: "model/wrapper-method"},
